@@ -33,7 +33,7 @@ open Px.Build (intToDec)
 
 inductive Err
   | indexError      -- `random.choice` on an empty sequence / Url.from_bytes(b'')
-  | valueError      -- ValueError / UnicodeDecodeError (Url.from_bytes, text_(hostname), text_(path), to_chunks)
+  | valueError      -- ValueError / UnicodeDecodeError (Url.from_bytes, text_(hostname), text_() in emit, to_chunks)
   | httpProtocol    -- HttpProtocolException (scheme not allowed; connection refused)
   | assertion       -- `assert self.choice and self.choice.hostname`, `build()`'s assert
   | typeError       -- `pattern.match(None)`
@@ -80,6 +80,7 @@ structure Cfg where
   bufSize : Nat := Px.Gen.defaultBufferSize
   disableHeaders : List Bytes := Px.Gen.defaultDisableHeaders
   notFound : Bytes := Px.Gen.pkt_NOT_FOUND_RESPONSE_PKT
+  badRequest : Bytes := Px.Gen.pkt_BAD_REQUEST_RESPONSE_PKT
 
 /-- `ReverseProxy` instance state plus ghost observables (`connects`, `wraps`, `closes`). -/
 structure St where
@@ -240,24 +241,37 @@ def emitRequestComplete (events : Bool) (req : Parser) : Option Err :=
           (req.headers.getD []).all (fun e => utf8Valid e.1 && utf8Valid e.2.2)
       then none else some .valueError
 
-/-- `on_request_complete()` after `emit_request_complete()` (all of it when `--enable-events` is
-    off): `_try_route`, else 404.  The only web plugin is `ReverseProxy`, the static server is off. -/
+/-- what `on_request_complete()` does once the path check and `emit_request_complete()` are
+    behind it: `_try_route` (→ `ReverseProxy.handle_request`), else 404.  The only web plugin
+    is `ReverseProxy`, the static server is off. -/
+def routeRequest (cfg : Cfg) (m : Nat → Bool) (pick : Nat → Nat) (connectOk : Bool)
+    (t : Table) (req : Parser) (s : St) : Res :=
+  if anyMatch m t then handleRequest cfg m pick connectOk t req s
+  else ⟨{ s with client := s.client.queue cfg.notFound }, true, none⟩
+
+/-- the first statement of `on_request_complete()` (since eb09b1e): a request path that does not
+    decode as UTF-8 is answered with `BAD_REQUEST_RESPONSE_PKT` and torn down — before
+    `emit_request_complete()` and before any routing, whatever the route table is. -/
+def badPath (cfg : Cfg) (s : St) : Res :=
+  ⟨{ s with client := s.client.queue cfg.badRequest }, true, none⟩
+
+/-- `HttpWebServerPlugin.on_request_complete()` with `--enable-events` off -/
 def onRequestComplete (cfg : Cfg) (m : Nat → Bool) (pick : Nat → Nat) (connectOk : Bool)
     (t : Table) (req : Parser) (s : St) : Res :=
-  -- `route.match(text_(path))` is evaluated once a route is registered
-  if t.any (fun p => !p.isEmpty) && !utf8Valid (webPath req) then ⟨s, true, some .valueError⟩
-  else if anyMatch m t then handleRequest cfg m pick connectOk t req s
-  else ⟨{ s with client := s.client.queue cfg.notFound }, true, none⟩
+  if !utf8Valid (webPath req) then badPath cfg s
+  else routeRequest cfg m pick connectOk t req s
 
 /-- `HttpWebServerPlugin.on_request_complete()` for a completed web-server
     request when the only web plugin is `ReverseProxy` and the static server is off:
-    `emit_request_complete()` first (an exception there escapes), then routing with the
-    very same request object.  `events` is `--enable-events`. -/
+    the path check, then `emit_request_complete()` (an exception there escapes), then routing
+    with the very same request object.  `events` is `--enable-events`. -/
 def onRequestCompleteEv (cfg : Cfg) (events : Bool) (m : Nat → Bool) (pick : Nat → Nat) (connectOk : Bool)
     (t : Table) (req : Parser) (s : St) : Res :=
-  match emitRequestComplete events req with
-  | some e => ⟨s, true, some e⟩
-  | none => onRequestComplete cfg m pick connectOk t req s
+  if !utf8Valid (webPath req) then badPath cfg s
+  else
+    match emitRequestComplete events req with
+    | some e => ⟨s, true, some e⟩
+    | none => routeRequest cfg m pick connectOk t req s
 
 /-- outcome of `self.upstream.recv(...)` when the upstream descriptor is readable -/
 inductive UpEv
